@@ -271,7 +271,7 @@ def build_full(ctx, name, sources, sanitize=True, extra=(), tsan=False):
     elif sanitize:
         flags += SAN_FLAGS
     t = time.time()
-    p = sh(["cmake", "-G", "Ninja", "-S", os.path.join(REPO, "src"), "-B", b, "-DCMAKE_BUILD_TYPE=RelWithDebInfo",
+    p = sh(["cmake", "-G", "Ninja", "-S", REPO, "-B", b, "-DCMAKE_BUILD_TYPE=RelWithDebInfo",
             "-DDISABLE_LINK_OPTIMIZATION=ON", "-DCMAKE_CXX_FLAGS=" + " ".join(flags)], timeout=600)
     if p.returncode != 0:
         raise CheckError("cmake configure failed:\n" + (p.stdout + p.stderr)[-4000:])
@@ -279,7 +279,7 @@ def build_full(ctx, name, sources, sanitize=True, extra=(), tsan=False):
     if p.returncode != 0:
         raise CheckError("library build failed:\n" + (p.stdout + p.stderr)[-6000:])
     objs = []
-    for root, _, files in os.walk(os.path.join(b, "CMakeFiles", "morfuse.dir")):
+    for root, _, files in os.walk(os.path.join(b, "src", "CMakeFiles", "morfuse.dir")):
         objs += [os.path.join(root, f) for f in files if f.endswith(".o")]
     if not objs:
         for root, _, files in os.walk(b):
@@ -287,7 +287,7 @@ def build_full(ctx, name, sources, sanitize=True, extra=(), tsan=False):
     exe = os.path.join(ctx.tmp, name)
     cmd = CXX_BASE + (["-fsanitize=thread"] if tsan else (SAN_FLAGS if sanitize else [])) + list(extra) + [
         "-I" + os.path.join(REPO, "include"), "-I" + os.path.join(REPO, "src"),
-        "-I" + os.path.join(b, "generated"), "-I" + HARNESS]
+        "-I" + os.path.join(b, "src", "generated"), "-I" + HARNESS]
     cmd += [os.path.join(HARNESS, s) for s in sources] + objs + ["-o", exe, "-lpthread"]
     p = sh(cmd, timeout=1800)
     ctx.stats["harness_build_s"] = round(time.time() - t, 1)
